@@ -28,7 +28,9 @@ for it in range(N):
     unit = {}
     for m in measures:
         cols = [n for n in names if rs.rand() < 0.8] or names[:1]       # securities missing from the table count as zero
-        unit[m] = pd.DataFrame(rs.randn(len(dts), len(cols)) * 3, index=dts, columns=cols)
+        # the table may carry a longer history than the prices: it is read by date, not by position
+        uidx = dts if rs.rand() < 0.5 else (dts[:1] - pd.Timedelta(days=3)).append(dts[:1] - pd.Timedelta(days=2)).append(dts)
+        unit[m] = pd.DataFrame(rs.randn(len(uidx), len(cols)) * 3, index=uidx, columns=cols)
     hist = int(rs.randint(0, 3))
     s.setup(data, unit_risk=unit)
     s.adjust(1e7)
@@ -39,7 +41,8 @@ for it in range(N):
         if rs.rand() < 0.8:
             q = float(rs.randint(-50, 50))
             holder(n).transact(q, n)
-    ups = [A.UpdateRisk(m, history=hist) for m in measures]
+    hist_of = {m: (hist if rs.rand() < 0.5 else int(rs.randint(0, 3))) for m in measures}      # measures may keep history to different depths
+    ups = [A.UpdateRisk(m, history=hist_of[m]) for m in measures]
     for di in (0, 2):
         s.update(dts[di])   # (re)fresh: the direct API expects the tree to be refreshed before the date moves on
         for u in ups: u(s)
@@ -47,27 +50,29 @@ for it in range(N):
         for m in measures:
             def rec(node, depth):
                 if isinstance(node, SecurityBase):
-                    ur = float(unit[m][node.name].values[di]) if node.name in unit[m].columns else 0.0
+                    ur = float(unit[m][node.name].loc[dts[di]]) if node.name in unit[m].columns else 0.0
                     want = 0.0 if is_zero(node.position) else ur * node.position * node.multiplier
                 else:
                     want = sum(rec(c, depth + 1) for c in node.children.values())
                 got = node.risk[m]
                 if abs(got - want) > 1e-9 * max(1.0, abs(want)): bad("risk-is-unit-risk-x-position-x-multiplier-summed-over-children", node=node.full_name, measure=m, got=got, want=want)
-                if depth < hist:
-                    if not hasattr(node, "risks") or abs(node.risks.loc[dts[di], m] - got) > 1e-12 * max(1.0, abs(got)): bad("history-kept-to-requested-depth", node=node.full_name, depth=depth, history=hist)
-                elif hasattr(node, "risks") and m in node.risks.columns and not np.isnan(node.risks.loc[dts[di], m]): bad("history-kept-only-to-requested-depth", node=node.full_name, depth=depth, history=hist)
+                if depth < hist_of[m]:
+                    # the row of the CURRENT date holds the risk (also for a security that never traded, whose own clock lags)
+                    if not hasattr(node, "risks") or m not in node.risks.columns or not (abs(node.risks.loc[dts[di], m] - got) <= 1e-12 * max(1.0, abs(got))): bad("history-kept-to-requested-depth", node=node.full_name, depth=depth, history=hist_of[m], date=str(dts[di].date()), row=(float(node.risks.loc[dts[di], m]) if hasattr(node, "risks") and m in node.risks.columns else None), risk=float(got))
+                elif hasattr(node, "risks") and m in node.risks.columns and not np.isnan(node.risks.loc[dts[di], m]): bad("history-kept-only-to-requested-depth", node=node.full_name, depth=depth, history=hist_of[m])
                 return got
             rec(s, 0)
     distinct.add((n_sec, nested, len(measures), hist))
     # ---- hedge: as many independent instruments as measures -> every hedged measure is neutralised (multipliers included)
     k = len(measures)
+    hm = [str(x) for x in rs.permutation(measures)]       # the measures to hedge, listed in an order of their own (not the order of the unit-risk dict)
     if n_sec - (max(1, n_sec // 2) if nested else 0) >= k:
         pool = [x.name for x in (secs[max(1, n_sec // 2):] if nested else secs)]   # instruments held directly by s
         inst = list(rs.choice(pool, size=k, replace=False))
-        J = np.array([[(float(unit[m][i_].values[2]) if i_ in unit[m].columns else 0.0) * mults[i_] for m in measures] for i_ in inst])
+        J = np.array([[(float(unit[m][i_].loc[dts[2]]) if i_ in unit[m].columns else 0.0) * mults[i_] for m in measures] for i_ in inst])
         if abs(np.linalg.det(J)) > 1e-3:
             try:
-                stack = bt.core.AlgoStack(*ups, A.SelectThese(inst), A.HedgeRisks(measures), *ups)
+                stack = bt.core.AlgoStack(*ups, A.SelectThese(inst), A.HedgeRisks(hm), *ups)
                 stack(s); s.update(s.now); evals += 1
                 scale = max(1.0, float(np.abs(J).max()) * 100)
                 for m in measures:
@@ -78,10 +83,10 @@ for it in range(N):
     if nested and n_sec - max(1, n_sec // 2) >= k:
         pool = [x.name for x in secs[max(1, n_sec // 2):]]
         inst = list(rs.choice(pool, size=k, replace=False))
-        J = np.array([[(float(unit[m][i_].values[2]) if i_ in unit[m].columns else 0.0) * mults[i_] for m in measures] for i_ in inst])
+        J = np.array([[(float(unit[m][i_].loc[dts[2]]) if i_ in unit[m].columns else 0.0) * mults[i_] for m in measures] for i_ in inst])
         if abs(np.linalg.det(J)) > 1e-3:
             book = s["sub"]
-            hs = bt.core.AlgoStack(*ups, A.SelectThese(inst), A.HedgeRisks(measures, strategy=book), *ups)
+            hs = bt.core.AlgoStack(*ups, A.SelectThese(inst), A.HedgeRisks(hm, strategy=book), *ups)
             try:
                 for rnd_ in range(2):
                     if rnd_ == 1:
@@ -104,9 +109,9 @@ for it in range(N):
             inst = [pool[0]]
             for u in ups: u(s)
             r0 = np.array([s.risk[m] for m in measures])
-            Jt = np.array([[(float(unit[m][i_].values[2]) if i_ in unit[m].columns else 0.0) * mults[i_] for i_ in inst] for m in measures])   # measures x instruments
+            Jt = np.array([[(float(unit[m][i_].loc[dts[2]]) if i_ in unit[m].columns else 0.0) * mults[i_] for i_ in inst] for m in measures])   # measures x instruments
             if np.abs(Jt).max() > 1e-3:
-                bt.core.AlgoStack(A.SelectThese(inst), A.HedgeRisks(measures, pseudo=True), *ups)(s); evals += 1
+                bt.core.AlgoStack(A.SelectThese(inst), A.HedgeRisks(hm, pseudo=True), *ups)(s); evals += 1
                 r1 = np.array([s.risk[m] for m in measures])
                 best = r0 + Jt @ np.linalg.lstsq(Jt, -r0, rcond=None)[0]
                 if np.linalg.norm(r1) > np.linalg.norm(best) * (1 + 1e-6) + 1e-6: bad("pseudo-inverse-hedge-is-least-squares-minimal", got=float(np.linalg.norm(r1)), best=float(np.linalg.norm(best)), multipliers=[mults[i_] for i_ in inst])
@@ -126,6 +131,12 @@ for it in range(N):
     for n in closing:
         after = pos.loc[pos.index >= cutoffs.loc[n, "date"], n] if n in pos.columns else pd.Series(dtype=float)
         if len(after) and float(np.abs(after.to_numpy()).max()) != 0.0: bad("no-position-once-close-date-has-passed", security=n, close=str(cutoffs.loc[n, "date"]), positions=list(map(float, after.to_numpy())))
+    # closed AND rolled securities recorded side by side: SelectActive drops the union of both sets, whichever is empty or not
+    for closed_, rolled_ in (({names[0]}, {names[1]}), ({names[0]}, set()), (set(), {names[1]}), ({names[0], names[2]}, {names[1]})):
+        s_ = Strategy("q", [], children=[Security(n) for n in names]); s_.perm["closed"] = set(closed_); s_.perm["rolled"] = set(rolled_); s_.temp["selected"] = list(names)
+        A.SelectActive()(s_); evals += 1
+        want = [n for n in names if n not in closed_ | rolled_]
+        if list(s_.temp["selected"]) != want: bad("SelectActive-drops-closed-and-rolled", closed=sorted(closed_), rolled=sorted(rolled_), selected=list(s_.temp["selected"]), expected=want)
     # a security that is flat when its close date passes must still be recorded: never opened afterwards through SelectActive
     late = names[0]
     sig = pd.DataFrame(True, index=dts2, columns=names); sig.loc[dts2[:5], late] = False
